@@ -36,10 +36,11 @@ LEMMAS = {
     "lemma_glue_poll": ("GLUE.poll", ["C16", "C04", "C15", "C01", "C08", "C10", "C11"]),
     "lemma_glue_async_blocking_wait": ("GLUE.async_blocking_wait", ["C15", "C16", "C04", "C01", "C10", "C11"]),
     "lemma_glue_wait_timeout": ("GLUE.wait_timeout", ["C13", "C04", "C01", "C08", "C10", "C11"]),
+    "lemma_glue_wait": ("GLUE.wait", ["C01", "C04", "C08", "C10", "C11", "C13"]),
     "lemma_glue_is_terminated": ("GLUE.is_terminated", ["C13"]),
     "lemma_glue_timeout_not_early": ("GLUE.timeout-not-early", ["C13"]),
 }
-GLUE_QUOTES = {"u2.kc": ["O-poll.final-only", "O-abw.final-only", "O-wait_timeout.success", "O-not-early", "O-is_terminated"],
+GLUE_QUOTES = {"u2.kc": ["O-poll.final-only", "O-abw.final-only", "O-wait_timeout.success", "O-not-early", "O-is_terminated", "O-wait.final-only"],
                "prelude_u1.rs": ["pub fn poll(&self)", "pub fn async_blocking_wait(&self", "pub fn wait_timeout(&self", "pub fn is_terminated(&self"]}
 
 
